@@ -1195,4 +1195,119 @@ theorem segSpec_topo {V : Type} (i : Input V) (h : wfPanelIn i = true) : ∀ k :
 
 end panel
 
+/-! ### "restricted to the new representatives" = "earlier representatives count as visited" -/
+
+section visited
+variable {adj : Nat → List Nat} {j : Nat}
+
+theorem closed_reach {V : List Nat} (hV : ∀ x ∈ V, ∀ r ∈ adj x, r ∈ V) {a b : Nat} (ha : a ∈ V) (hr : Reach adj a b) : b ∈ V := by
+  induction hr with
+  | refl => exact ha
+  | tail _ hbc ih => exact hV _ ih _ hbc
+
+theorem dfsList_visited_of {V : List Nat} {fuel : Nat}
+    (ih : ∀ k A, k < j → j ≤ k + fuel → A.Nodup → TopoClosed adj A →
+      dfsVisit adj fuel k (A.filter (fun x => decide (x ∉ V)) ++ V) = (dfsVisit adj fuel k A).filter (fun x => decide (x ∉ V)) ++ V)
+    (hadj : ∀ k, ∀ r ∈ adj k, k < r ∧ r < j) :
+    ∀ (rs A : List Nat), (∀ r ∈ rs, r < j ∧ j ≤ r + fuel) → A.Nodup → TopoClosed adj A →
+      dfsList adj fuel rs (A.filter (fun x => decide (x ∉ V)) ++ V) = (dfsList adj fuel rs A).filter (fun x => decide (x ∉ V)) ++ V
+  | [], A, _, _, _ => by simp [dfsList]
+  | r :: rs, A, hrs, hnd, htc => by
+    have h1 := dfsVisit_step hadj fuel r A (hrs r mem_cons_self).1 (hrs r mem_cons_self).2 hnd htc
+    have e : ∀ X, dfsList adj fuel (r :: rs) X = dfsList adj fuel rs (dfsVisit adj fuel r X) := by intro X; simp [dfsList]
+    rw [e, e, ih r A (hrs r mem_cons_self).1 (hrs r mem_cons_self).2 hnd htc]
+    exact dfsList_visited_of ih hadj rs _ (fun x hx => hrs x (mem_cons_of_mem _ hx)) h1.nodup h1.topo
+
+theorem dfsVisit_visited (hadj : ∀ k, ∀ r ∈ adj k, k < r ∧ r < j) {V : List Nat} (hV : ∀ x ∈ V, ∀ r ∈ adj x, r ∈ V) :
+    ∀ fuel k A, k < j → j ≤ k + fuel → A.Nodup → TopoClosed adj A →
+      dfsVisit adj fuel k (A.filter (fun x => decide (x ∉ V)) ++ V) = (dfsVisit adj fuel k A).filter (fun x => decide (x ∉ V)) ++ V := by
+  intro fuel
+  induction fuel with
+  | zero => intro k A hk hf; omega
+  | succ fuel ih =>
+    intro k A hk hf hnd htc
+    have hstep := dfsVisit_step hadj (fuel + 1) k A hk hf hnd htc
+    by_cases hA : k ∈ A
+    · have hin : k ∈ A.filter (fun x => decide (x ∉ V)) ++ V := by
+        by_cases hv : k ∈ V
+        · exact mem_append_right _ hv
+        · exact mem_append_left _ (mem_filter.mpr ⟨hA, by simpa using hv⟩)
+      rw [dfsVisit, if_pos hin, dfsVisit, if_pos hA]
+    · by_cases hv : k ∈ V
+      · have hin : k ∈ A.filter (fun x => decide (x ∉ V)) ++ V := mem_append_right _ hv
+        rw [dfsVisit, if_pos hin]
+        obtain ⟨new, en, rn⟩ := hstep.ext
+        rw [en, filter_append]
+        have : new.filter (fun x => decide (x ∉ V)) = [] := by
+          rw [filter_eq_nil_iff]
+          intro x hx
+          obtain ⟨s, hs, hsx⟩ := rn x hx
+          rw [mem_singleton] at hs; subst hs
+          have := closed_reach hV hv hsx
+          simpa using this
+        rw [this, nil_append]
+      · have hnin : k ∉ A.filter (fun x => decide (x ∉ V)) ++ V := by
+          intro hh
+          rcases mem_append.mp hh with hh | hh
+          · exact hA (mem_filter.mp hh).1
+          · exact hv hh
+        rw [dfsVisit, if_neg hnin, dfsVisit, if_neg hA]
+        have hl := dfsList_visited_of (V := V) ih hadj (adj k) A
+          (fun r hr => ⟨(hadj k r hr).2, by have := (hadj k r hr).1; omega⟩) hnd htc
+        unfold dfsList at hl
+        rw [hl, filter_cons]
+        simp [hv]
+
+/-- with the set `V` closed under successors: searching with `V` already visited = searching afresh and dropping
+what lies in `V` -/
+theorem dfsList_visited (hadj : ∀ k, ∀ r ∈ adj k, k < r ∧ r < j) {V : List Nat} (hV : ∀ x ∈ V, ∀ r ∈ adj x, r ∈ V)
+    (roots : List Nat) (hroots : ∀ r ∈ roots, r < j) :
+    dfsList adj j roots V = (dfsList adj j roots []).filter (fun x => decide (x ∉ V)) ++ V := by
+  have := dfsList_visited_of (V := V) (fun k A a b c d => dfsVisit_visited hadj hV j k A a b c d) hadj roots []
+    (fun r hr => ⟨hroots r hr, by omega⟩) nodup_nil trivial
+  simpa using this
+
+end visited
+
+section panelVisited
+variable {V : Type} {i : Input V}
+
+/-- the representatives found by the first `k` panel columns, as the accumulator of ONE recursive search that
+runs over the columns in turn and keeps what earlier columns found as visited -/
+def visAcc (i : Input V) : Nat → List Nat
+  | 0 => []
+  | k + 1 => dfsList (ColDfs.adjR i.cenv i.lsub) i.jcol.toNat
+      ((ColDfs.rootCols i.cenv (colRows i (i.jcol + k))).map (ColDfs.repN i.cenv)) (visAcc i k)
+
+theorem segSpec_eq_visAcc (h : wfPanelIn i = true) : ∀ k : Nat, (k : Int) ≤ i.w →
+    segSpec i k = (visAcc i k).reverse.map Int.ofNat ∧ (visAcc i k).Nodup ∧ TopoClosed (ColDfs.adjR i.cenv i.lsub) (visAcc i k)
+  | 0, _ => ⟨rfl, nodup_nil, trivial⟩
+  | k + 1, hk => by
+    obtain ⟨e1, hnd, htc⟩ := segSpec_eq_visAcc h k (by push_cast at hk ⊢; omega)
+    have hE := wfPanelIn_env h
+    have hadj := ColDfs.adjR_lt hE
+    have hroots := ColDfs.rootCols_lt hE (wfPanelIn_rows h (k := k) (by push_cast at hk; omega))
+    have hstep := dfsList_step_of (dfsVisit_step hadj i.jcol.toNat) _ (visAcc i k)
+      (fun r hr => ⟨hroots r hr, Nat.le_add_left _ _⟩) hnd htc
+    refine ⟨?_, hstep.nodup, hstep.topo⟩
+    show segSpec i k ++ _ = (visAcc i (k + 1)).reverse.map Int.ofNat
+    have hv : visAcc i (k + 1) = (colPost i k).filter (fun x => decide (x ∉ visAcc i k)) ++ visAcc i k :=
+      dfsList_visited hadj htc.closed _ hroots
+    rw [hv, reverse_append, map_append, ← e1]
+    congr 1
+    rw [← filter_reverse, filter_map]
+    congr 1
+    apply filter_congr
+    intro s _
+    show decide (Int.ofNat s ∉ segSpec i k) = decide (s ∉ visAcc i k)
+    rw [e1, decide_eq_decide, not_iff_not]
+    constructor
+    · intro hm
+      obtain ⟨s', hs', hss⟩ := mem_map.mp hm
+      have : s' = s := Int.ofNat.inj hss
+      subst this; exact mem_reverse.mp hs'
+    · intro hm; exact mem_map.mpr ⟨s, mem_reverse.mpr hm, rfl⟩
+
+end panelVisited
+
 end Slu.PanelDfs
